@@ -41,6 +41,7 @@ CONSTANTS Queues,          \* set of queue ids 0..n-1
           AllowExplicit,   \* explicit positions offered
           MaxDamage,       \* frames that may be damaged at rest (after a clean close)
           DamageKinds,     \* subset of {"crc", "type", "zero"}
+          MinOpsBeforeCrash,   \* crashes are enabled once this many calls have begun (0 everywhere except the simulation configs)
           CrcQuarantinesBlock  \* FALSE: the code (a CRC failure drops the frame only); TRUE: self-test of the C09 predicate
 
 VARIABLES mem, tracked, wfile, woff, items, entries, exists, sized, dirDurable,
@@ -415,7 +416,7 @@ CutVisible(its, i, budget, acc) ==
                     IF v > 0 THEN Append(acc, [its[i] EXCEPT !.vis = v]) ELSE acc)
 
 CrashCommon ==
-  /\ mode = "Ready" /\ ncrash < MaxCrashes
+  /\ mode = "Ready" /\ ncrash < MaxCrashes /\ nops >= MinOpsBeforeCrash
   /\ mode' = "Closed" /\ todo' = <<>> /\ buffered' = 0 /\ mem' = EmptyMem
   /\ post' = 1 /\ lastOs' = 0 /\ clean' = FALSE /\ ncrash' = ncrash + 1
   /\ UNCHANGED <<tracked, wfile, woff, entries, done, inflight, pendP, pendW, assigned, batches, wsum, wstart,
